@@ -127,7 +127,23 @@ def str_order(it, op, a, b):
     raise Unsupported('string ordering on %r, %r' % (a, b))
 
 
+def _is_opaque_app(e):
+    try:
+        return (z3.is_app(e) and e.num_args() > 0
+                and e.decl().kind() == z3.Z3_OP_UNINTERPRETED)
+    except Exception:
+        return False
+
+
 def str_contains(it, container, x):
+    if isinstance(container, SStr) and isinstance(x, str) and \
+            _is_opaque_app(container.e):
+        # substring test on the result of an uninterpreted operator (e.g.
+        # s.lower()): itself an uninterpreted predicate, one per constant -
+        # code and contract share it; relations between different constants
+        # are dropped (over-approximation, sound for proofs)
+        f = ufun('py_contains_' + x.encode().hex(), _S, z3.BoolSort())
+        return mk_bool(f(container.e))
     if isinstance(container, (str, SStr)) and isinstance(x, (str, SStr)):
         return mk_bool(z3.Contains(zstr(container), zstr(x)))
     if isinstance(container, (str, SStr, OpaqueStr)) and not isinstance(
